@@ -113,15 +113,19 @@ def mesh_json(coords, elements, node_ids, elem_ids, **kw):
 
 # ------------------------------------------------------------------------------------------------ hot spots
 
-def hotspot_spec(rows, values, limit_frac):
+def hotspot_spec(rows, values, limit_frac, artefact_threshold=None):
     """Reference semantics of the property (independent of the implementation and of the Coq model's algorithm):
     entries at or above limit_frac*max, connected components under shared node / shared element, numbered by
-    descending peak (ties: the component whose peak entry comes first in row order).
+    descending peak (ties: the component whose peak entry comes first in row order).  With an artefact threshold the
+    maximum is taken over the values below it (the hot spots themselves still contain every row >= the limit).
     rows = [(element_id, node_id)], values = list of numbers.  Returns the list of labels."""
     n = len(rows)
     if n == 0:
         return []
-    thr = limit_frac * max(values)
+    considered = values if artefact_threshold is None else [v for v in values if v < artefact_threshold]
+    if not considered:          # the documented maximum does not exist: nothing is at or above it
+        return [0] * n
+    thr = limit_frac * max(considered)
     above = [v >= thr for v in values]
     parent = list(range(n))
 
